@@ -32,3 +32,24 @@ def compare(c, strip=False, reuse=False, c_caps=1, c_caps_min=1):
     rf, mf = real.split(' ; '), model.split(' ; ')
     diff = next((n for n, a, b in zip(names, rf, mf) if a != b), 'format')
     return False, real, model, diff, so
+
+
+def signal_rows(c, strip, caps=1, cmin=1):
+    """the real op rows at SIGNAL level: operands of stripped fan-out branches are resolved to the signal that owns their
+    memory in the map built WITHOUT reuse (a bijection signal <-> location), writers of the scratch slot are renamed apart
+    (nobody reads them). returns (rows as 'lut,out,i0,i1,i2,i3' strings, level_starts of the program)"""
+    so0 = real_simops(c, strip, False, caps, cmin)
+    ops = np.array(so0.ops); locs0 = np.array(so0.c_locs)
+    written = set(int(r[1]) for r in ops) | set(so0.ppi_offset + i for i in range(so0.s_len))
+    by0 = {}
+    for w in written:
+        if w not in (so0.tmp_idx, so0.tmp2_idx): by0.setdefault(int(locs0[w]), w)
+    def src(i):
+        i = int(i)
+        return i if i in written else by0.get(int(locs0[i]), i)
+    rows = []; fresh = len(locs0) + 10
+    for r in ops:
+        o = int(r[1])
+        if o == so0.tmp_idx: o = fresh; fresh += 1
+        rows.append(','.join(str(x) for x in [int(r[0]), o] + [src(v) for v in r[2:6]]))
+    return rows, [int(x) for x in so0.level_starts]
